@@ -660,9 +660,14 @@ fn spawn_async_ao_list_in_task'''),
         ('backslash-in-the-delimiter-does-not-count-as-quoting', 'brush-parser/src/parser/peg.rs', [("specific_operator(\"<<\") here_tag:here_tag() doc:[_] closing_tag:here_tag() {\n                let requires_expansion = !here_tag.to_str().contains(['\\'', '\"', '\\\\']);", "specific_operator(\"<<\") here_tag:here_tag() doc:[_] closing_tag:here_tag() {\n                let requires_expansion = !here_tag.to_str().contains(['\\'', '\"', '\"']);")]),
     ],
     'U70': [
+        ('process-substitution-loses-errexit', 'brush-core/src/interp.rs', "    let mut subshell = shell.clone();\n\n    // Set up execution parameters for the child execution.", "    let mut subshell = shell.clone();\n    subshell.options_mut().exit_on_nonzero_command_exit = false;\n\n    // Set up execution parameters for the child execution."),
         ('descriptor-search-also-skips-the-shells-own-table', 'brush-core/src/interp.rs', "    while params.open_files.contains_fd(candidate_fd_num) {", "    while params.open_files.contains_fd(candidate_fd_num)\n        || shell.persistent_open_files().contains_fd(candidate_fd_num)\n    {"),
         ('descriptor-search-starts-at-62', 'brush-core/src/interp.rs', "    let mut candidate_fd_num = 63;", "    let mut candidate_fd_num = 62;"),
         ('descriptor-search-may-return-zero', 'brush-core/src/interp.rs', "        if candidate_fd_num == 0 {\n            return error::unimp(\"no available file descriptors\");\n        }\n    }\n\n    Ok((candidate_fd_num, target_file))", "        if candidate_fd_num < 0 {\n            return error::unimp(\"no available file descriptors\");\n        }\n    }\n\n    Ok((candidate_fd_num, target_file))"),
+    ],
+    'U76': [
+        ('declared-without-a-value-reads-as-zero-under-nounset', 'brush-core/src/arithmetic.rs', "    if let Some(value) = value\n        && value.is_set()\n    {", "    if let Some(value) = value {"),
+        ('unset-name-in-arithmetic-never-an-error', 'brush-core/src/arithmetic.rs', "    if shell.options().treat_unset_variables_as_error {\n        return Err(EvalError::ExpandingUnsetVariable(name.into()));\n    }\n\n    Ok(\"\".into())", "    Ok(\"\".into())"),
     ],
     'U75': [
         ('assignable-scalar-quoted-only-if-needed', 'brush-core/src/variables.rs', "            Self::String(s) => Ok(escape::force_quote(\n                s.as_str(),\n                escape::QuoteMode::SingleQuote,\n            )),", "            Self::String(s) => Ok(escape::quote_if_needed(\n                s.as_str(),\n                escape::QuoteMode::SingleQuote,\n            )\n            .into_owned()),"),
@@ -751,6 +756,7 @@ fn spawn_async_ao_list_in_task'''),
         ('here-state-put-back-before-the-construct-is-read', 'brush-parser/src/tokenizer.rs', [("                            let outer_here_tags =\n                                std::mem::take(&mut self.cross_state.current_here_tags);\n", "                            let outer_here_tags =\n                                std::mem::take(&mut self.cross_state.current_here_tags);\n                            self.cross_state.here_state = outer_here_state;\n"), ("                            self.cross_state.here_state = outer_here_state;\n                            self.cross_state.current_here_tags = outer_here_tags;", "                            self.cross_state.current_here_tags = outer_here_tags;")]),
     ],
     'U27b': [
+        ('delimiter-recognised-after-any-blank', 'brush-parser/src/tokenizer.rs', "                || current_token_without_here_tag.ends_with('\\n')", "                || current_token_without_here_tag.ends_with(char::is_whitespace)"),
         ('here-docs-state-kept-after-the-last-pending-body', 'brush-parser/src/tokenizer.rs', "                if cross_token_state.current_here_tags.is_empty() {\n                    cross_token_state.here_state = HereState::None;", "                if !cross_token_state.current_here_tags.is_empty() {\n                    cross_token_state.here_state = HereState::None;"),
         ('character-after-the-terminator-unwrapped', 'brush-parser/src/tokenizer.rs', "                    state.append_char(\n                        self.next_char()?\n                            .ok_or(TokenizerError::UnterminatedExpansion)?,\n                    );", "                    state.append_char(self.next_char()?.unwrap());"),
         ('closing-character-of-the-construct-unwrapped', 'brush-parser/src/tokenizer.rs', "        state.append_char(\n            self.next_char()?\n                .ok_or(TokenizerError::UnterminatedExpansion)?,\n        );\n        Ok(())", "        state.append_char(self.next_char()?.unwrap());\n        Ok(())"),
